@@ -256,7 +256,7 @@ func (e *nodeEngine) startNodes(n int) bool {
 		conf.Cluster.Gossip.BindAddr = "127.0.0.1:0"
 		conf.Cluster.Gossip.Interval = gossipInterval
 		conf.Cluster.AbortIfJoinFails = false
-		conf.Cluster.JoinTimeout = 2 * time.Second
+		conf.Cluster.JoinTimeout = 30 * time.Second
 		conf.GracePeriod = gracePeriod
 		conf.Proxy.AccessLog.Disable = true
 		s, err := server.NewServer(conf, log.NewNopLogger())
@@ -277,7 +277,7 @@ func (e *nodeEngine) startNodes(n int) bool {
 	e.ls = map[int]*lst{}
 	e.hc = &http.Client{Transport: &http.Transport{DisableKeepAlives: true}, Timeout: 3 * time.Second}
 	e.started = true
-	return e.waitFor(settleBound, func() bool {
+	return e.waitFor(3*settleBound, func() bool {
 		for _, a := range e.nodes {
 			ns := a.srv.ClusterState().Nodes()
 			if len(ns) != n {
